@@ -39,6 +39,12 @@ CHECKS["C08"] = dict(technique="property-based testing (rapid): sign/verify roun
 CHECKS["C09"] = dict(technique="property-based testing (rapid): generated partial-signature lists with injected invalid/duplicate partials against the unique-signature oracle; BDN aggregates against reference sums; CoSi mask state machine against a bit-set model",
   text="For the 8 (suite, signature group) combinations: BLS sign/verify with key/message/signature mutations; threshold BLS recovery from arbitrary orders of valid, invalid and duplicate partials must equal bls.Sign(secret) exactly or be refused below t; BDN aggregates over masks built by five routes equal harness-computed reference sums, verify under exactly their mask and no neighbouring mask; CoSi collective signatures verify iff the policy holds and every semantically different mutation is rejected; the CoSi mask is compared with a bit-set model after every SetBit/SetMask. Exploration only.",
   note="Trusted: rapid; the BDN coefficient derivation (blake2s XOF over the key list) is re-implemented from its specification; pairing correctness itself is C06.", ref="4/C09")
+CHECKS["C13"] = dict(technique="property-based testing (rapid): honest PVSS pipelines over generated parameters with subset/order recovery, plus single-field / cross-trustee / parameter mutations that must all fail",
+  text="Generated (group, n, t, secret, H, keys): honest encrypted and decrypted shares verify singly and in batches, recovery from any >= t verified shares in any order returns secret*G and is refused below t; one mutation per case out of 11 families (each field of an encrypted or decrypted share, swapped trustees, wrong key, wrong commitment, altered polynomial coefficient, wrong H, wrong global challenge), applied only if the value really differs, must fail verification, be excluded from batch results and be refused by DecShare; DLEQ proofs verify and fail under 9 component/point mutations. Exploration only.",
+  note="Trusted: rapid. Soundness only against the listed mutation families; the positional share index is not bound by the scheme and not mutated.", ref="4/C13")
+CHECKS["C16"] = dict(technique="property-based testing (rapid): encrypt/decrypt round trips with high-entropy plaintexts, plaintext-block-in-clear detector, tamper families per ciphertext region",
+  text="Generated messages (boundary lengths), keys, identities and recipient sets for ECIES (5 groups x 3 hashes), IBE CCA/CPA on both group assignments for every suite with a hashable identity group, and anonymous-set encryption (4 suites, sets of 1..6, every index): round trip, no 16-byte plaintext block at its offset in an accepted ciphertext, refusal of messages the scheme cannot protect, and errors (never panics, never another plaintext) for wrong keys/identities/indices and for bit flips, truncation and extension in every ciphertext region. Exploration only.",
+  note="Trusted: rapid. ECIES/IBE nonces come from crypto/rand and cannot be injected (properties hold for every nonce). Known design weakness, tolerated: IBE-CCA's FO randomiser sigma has only |msg| bytes, so for messages < 16 bytes a wrong identity key can pass the check with probability 2^(-8|msg|) and then returns the same plaintext.", ref="4/C16")
 NOT_YET = {}
 
 def main():
